@@ -323,7 +323,9 @@ func (c *Ctx) tokenRunesByEvaluation(sc *FuncInfo, chObj types.Object) (plain, c
 	rest := sc.Decl.Body.List[k+1:]
 	flag := paramObj(info, sc.Decl, 0)
 	recvT := recvNamed(sc.Obj)
-	isRead := func(fn *types.Func) bool { return fn != nil && fn.Name() == "read" && recvNamed(fn) == recvT && recvT != nil }
+	isRead := func(fn *types.Func) bool {
+		return fn != nil && fn.Name() == "read" && recvNamed(fn) == recvT && recvT != nil
+	}
 	rescans := func(fn *types.Func) bool {
 		if fn == nil || !inRepo(fn) || recvNamed(fn) != recvT || recvT == nil || isRead(fn) || fn.Name() == "unread" || fn == sc.Obj {
 			return false
